@@ -10,7 +10,7 @@ class C09(Prop):
     check_module = "Moc.Check.C09Check"
     harness_bin = "core"
     harness_sub = "c09"
-    case_imports = ["Moc.Match", "Moc.Merge"]
+    case_imports = ["Moc.Match", "Moc.Merge", "Moc.MergeMulti"]
     sizes = {"quick": 2000, "thorough": 60000}
     gen_names = ("g_merge_too_few", "g_ok_not_ready", "g_count_not_ready", "g_ok_no_slot", "g_ok_setmsg_drop",
                  "g_ok_clear_done", "g_ok_ready_absent", "g_ok_msg_absent", "g_ok_is_accepted", "g_ok_any_rejected",
@@ -23,13 +23,20 @@ class C09(Prop):
             "in flight or of the COUNT id universe (a CLOSE or REQ must not disturb the aggregation); first, in every "
             "tier, 276 enumerated histories: one EVENT/COUNT, n=2,3, each reply order, a client CLOSE resp. REQ with "
             "the same id inserted at every position, with no / a finished / a pending subscription of that id; 40% of the "
-            "random histories may re-use an id that is still in flight (the class of the repaired finding K1); non-trivial = an aggregated reply "
+            "random histories may re-use an id that is still in flight (the class of the repaired finding K1); "
+            "one handler value serving several connections: 48 enumerated histories (2 sessions of the same NewMergeHandler "
+            "result, 2 children, the same EVENT resp. COUNT id submitted on both, the four replies in all 24 orders, the "
+            "children answering differently per session) in every tier, and n/8 more random histories with 2-3 sessions, each "
+            "session with a history of its own from the same generator and the same id universes, interleaved at random; "
+            "every session is judged on its own (product of session models, per-session oracle); non-trivial = an aggregated reply "
             "was produced from children that disagreed; distinct = distinct JSON of the inputs")
     trusted_base = COMMON_TRUSTED + [
         "the scripted-children driver harness/cmd/core/merge_driver.go (sentinel protocol: per-child FIFO through "
         "one forwarder and the single handleSend loop)",
         "atomicity of the critical sections of mergeHandlerSession (state passed through 1-slot channels) — Go "
         "memory model",
+        "several sessions: a scripted child learns the session of a ServeNostr call from a context value that the merge "
+        "handler hands down to its children",
     ]
     assumptions = [
         "child indices are in range (trace_ok); answers_in_order: every child answers each request once and answers "
@@ -51,14 +58,15 @@ class C09(Prop):
             if st["k"] != "child":
                 continue
             m = st["m"]
+            ss = st.get("s", 0)
             if m["t"] == "ok":
-                verdicts.setdefault(m.get("id", ""), set()).add(bool(m.get("acc")))
+                verdicts.setdefault((ss, m.get("id", "")), set()).add(bool(m.get("acc")))
                 if st.get("out"):
-                    hit = hit or len(verdicts.pop(m.get("id", ""), set())) > 1
+                    hit = hit or len(verdicts.pop((ss, m.get("id", "")), set())) > 1
             elif m["t"] == "count":
-                counts.setdefault(m.get("sub", ""), set()).add(m.get("c", 0))
+                counts.setdefault((ss, m.get("sub", "")), set()).add(m.get("c", 0))
                 if st.get("out"):
-                    hit = hit or len(counts.pop(m.get("sub", ""), set())) > 1
+                    hit = hit or len(counts.pop((ss, m.get("sub", "")), set())) > 1
         return json.dumps(mc.strip(c), sort_keys=True) if hit else None
 
     def dedup_key(self, c):
@@ -78,13 +86,20 @@ class C09(Prop):
     def distribution(self, cases):
         d = {"histories": len(cases), "children_2": 0, "children_3": 0, "children_4": 0, "steps": 0,
              "client_event": 0, "client_count": 0, "child_ok": 0, "child_count": 0, "merged_ok_accepting": 0,
-             "merged_ok_rejecting": 0, "merged_count": 0, "histories_with_same_id_in_flight": 0, "failed_runs": 0}
+             "merged_ok_rejecting": 0, "merged_count": 0, "histories_with_same_id_in_flight": 0,
+             "histories_with_2_sessions": 0, "histories_with_3_sessions": 0,
+             "histories_with_same_id_in_flight_on_two_sessions": 0, "failed_runs": 0}
         for c in cases:
             d["children_%d" % c["n"]] = d.get("children_%d" % c["n"], 0) + 1
             if c.get("fail"):
                 d["failed_runs"] += 1
             if mc.same_id_in_flight(c):
                 d["histories_with_same_id_in_flight"] += 1
+            if mc.nsessions(c) > 1:
+                key = "histories_with_%d_sessions" % mc.nsessions(c)
+                d[key] = d.get(key, 0) + 1
+                if mc.same_id_in_flight_across_sessions(c):
+                    d["histories_with_same_id_in_flight_on_two_sessions"] += 1
             for st in c.get("steps") or []:
                 d["steps"] += 1
                 k = st["k"]
